@@ -34,8 +34,8 @@ DIRECTIVE_OK = {"+", "-", "*", "&", "<<", ">>", "u-"}
 
 def bound(tier):
     if tier == "thorough":
-        return "trees: <=3 binary ops x <=2 unary (all renderings, all contexts); 4 binary ops x <=1 unary (2 renderings, 2 contexts); operator pairs x 10 boundary literals; literal spellings; 31 malformed texts x 9 contexts"
-    return "trees: <=2 binary ops x <=2 unary (7 renderings, 9 contexts); 3 binary ops x <=1 unary (2 renderings, 2 contexts); operator pairs x 10 boundary literals; literal spellings; 31 malformed texts x 9 contexts"
+        return "trees: <=3 binary ops x <=2 unary (all renderings, all contexts); 4 binary ops x <=1 unary (2 renderings, 2 contexts); operator pairs x 10 boundary literals; literal spellings; 31 malformed texts x 11 contexts"
+    return "trees: <=2 binary ops x <=2 unary (7 renderings, 11 contexts); 3 binary ops x <=1 unary (2 renderings, 2 contexts); operator pairs x 10 boundary literals; literal spellings; 31 malformed texts x 11 contexts"
 
 
 def cases(tier, seed):
@@ -108,6 +108,25 @@ def ctx_opdirect(text):
     return int.from_bytes(d[1:], "little")
 
 
+def ctx_opauto(text):
+    """Unsized direct operand: the expression is evaluated by the label pass (to choose the width) and again at emission."""
+    d = _bytes(_asm(f"lda {text}\n"))
+    if not d or {2: 0xA5, 3: 0xAD, 4: 0xAF}.get(len(d)) != d[0]:
+        raise RuntimeError("unexpected bytes " + d.hex())
+    v = int.from_bytes(d[1:], "little")
+    if (len(d) == 3 and v <= 0xFF) or (len(d) == 4 and v <= 0xFFFF):
+        raise RuntimeError("wider form than the value needs: " + d.hex())
+    return v
+
+
+def ctx_twice(text):
+    """The same expression node evaluated for two applications of one macro body and for two loop iterations."""
+    d = _bytes(_asm(f".macro mt() {{\n.dl {text}\n}}\nmt()\nmt()\n.for qq := 0, 2 {{\n.dl {text}\n}}\n"))
+    if len(d) != 12 or not (d[0:3] == d[3:6] == d[6:9] == d[9:12]):
+        raise RuntimeError("the four evaluations differ: " + d.hex())
+    return int.from_bytes(d[:3], "little")
+
+
 def wholly_parenthesised(text):
     t = text.strip()
     if not t.startswith("("):
@@ -161,6 +180,8 @@ CONTEXTS = {
     "opw": (ctx_opw, "operand", lambda v: v & 0xFFFF, lambda v: True),
     # direct (non-immediate) instruction operand; `lda.l (expr)` would be the indirect syntax, so that spelling is skipped
     "opdirect": (ctx_opdirect, "operand", lambda v: v, lambda v: 0 <= v <= 0xFFFFFF),
+    "opauto": (ctx_opauto, "operand", lambda v: v, lambda v: 0 <= v <= 0xFFFFFF),
+    "twice": (ctx_twice, "directive", lambda v: v & 0xFFFFFF, lambda v: True),
     "dl": (ctx_dl, "directive", lambda v: v & 0xFFFFFF, lambda v: True),
     "eq": (ctx_eq, "directive", lambda v: v, lambda v: True),
     "assign": (ctx_assign, "directive", lambda v: v, lambda v: True),
@@ -208,7 +229,7 @@ def check_text(tree, text, value, ctxs, viol, stats):
             continue
         if not applicable(value):
             continue
-        if name == "opdirect" and wholly_parenthesised(text):
+        if name in ("opdirect", "opauto") and wholly_parenthesised(text):
             continue
         n += 1
         try:
@@ -306,8 +327,12 @@ def run_unary_boundary():
     viol = []
     stats = {}
     evals = nt = 0
-    for L in BOUNDARY + [2, 3, 0xFE, 0x101, 0xFFFE, 0x10001, 0x7FFFFFFF, 0x80000000, 0xFFFFFFFE]:
-        lit = ("n", L, hex(L))
+    lits = [("n", L, hex(L)) for L in BOUNDARY + [2, 3, 0xFE, 0x101, 0xFFFE, 0x10001, 0x7FFFFFFF, 0x80000000, 0xFFFFFFFE]]
+    # the width of a complement comes from the VALUE, not from how many digits were written
+    lits += [("n", v, t) for v, t in ((0xFF, "0x00ff"), (0xF0, "0x00f0"), (0x0F, "0x0000000f"), (0x1234, "0x00001234"), (5, "0b00000101"),
+                                      (0x100, "0x0100"), (0, "0x0000"), (1, "0001" if False else "0x01"))]
+    for lit in lits:
+        L = lit[1]
         for pre in [("~",), ("-",), ("~", "~"), ("-", "~"), ("-", "-"), ("~", "~", "~"), ("-", "-", "~"), ("~", "-"), ("~", "~", "-"), ("-", "~", "-")]:
             t = lit
             for u in reversed(pre):
